@@ -116,6 +116,11 @@ def _loader_cases(rep, PP):
              ("unresolved-macro", [good[0], "DEF_SHORTCODE(A2_y, { })"], None, True),
              ("truncated", [good[0], "insn(A2_y, { RdV = 1; }"], None, True),
              ("no-comma", ["insn(A2_y { })"], None, True)]
+    # a line ends at '\n' only: characters that str.splitlines() also treats as line boundaries are ordinary body text
+    for ch in ("\f", "\v", "\x1c", "\x1d", "\x1e", "\x85", "\u2028", "\u2029", "\t", "\\n"):
+        body = "{ RdV = 1;" + ch + " RxV = 2; }"
+        cases.append((f"body-with-{ch!r}", [good[0], f"insn(W_ws, {body})", good[1]],
+                      {"A2_x": want_good["A2_x"], "W_ws": [body], "B_y": want_good["B_y"]}, False))
     n = 0
     for name, lines, want, must_raise in cases:
         n += 1
